@@ -225,6 +225,10 @@ def plan(tier, seed):
     conv = _converge_pool()
     for i in range(0, len(conv), 48):
         cases.append({"kind": "converge", "lo": i, "hi": min(len(conv), i + 48), "w": 48 * 4 * 3.0})
+    # long required lists (the search must scale with the sequence, not stop at some number of steps)
+    for n in ((400, 3500) if tier == "quick" else (400, 3500, 9000)):
+        for pats in (["(s p)* e"], ["s (p | x)* e", ".* e"]):
+            cases.append({"kind": "long", "n": n, "patterns": pats, "w": n * 4.0})
     lp = _looppair_cases()
     for i in range(0, len(lp), 400):
         cases.append({"kind": "looppairs", "lo": i, "hi": min(len(lp), i + 400), "w": 400 * 2 * 3.0})
@@ -424,6 +428,30 @@ def _run_case(case, ctx):
                 for d in DEPTHS:
                     _judge(ctx, req, [pool[i]], d, [], "shape")
         ctx.sample({"stratum": "shape", "pattern": pool[case["lo"]], "required": "every list of length 0..%d over a,b,c" % case["req"], "depth_limit": DEPTHS})
+    elif kind == "long":
+        from vc2_conformance.symbol_re import ImpossibleSequenceError, make_matching_sequence
+
+        req = ["p"] * case["n"]
+        pats = case["patterns"]
+        autos = [_auto(t) for t in pats]
+        ref = R.shortest_completion(req, autos, 3, ["s", "p", "e", "x", FRESH])
+        ctx.count("long_cases")
+        ctx.maxi("max_required_length", case["n"])
+        try:
+            got = make_matching_sequence(req, *pats)
+        except ImpossibleSequenceError:
+            got = None
+        what = "make_matching_sequence(%d x 'p', %s)" % (case["n"], ", ".join(repr(t) for t in pats))
+        if got is None:
+            if ref is not None:
+                ctx.violation("impossible-but-completion-exists:long", "%s raised ImpossibleSequenceError although a completion of length %d exists" % (what, len(ref)), case=case)
+        elif ref is None or not all(a.accepts(got) for a in autos):
+            ctx.violation("unsound:long", "%s returned a sequence of length %d which the patterns do not match" % (what, len(got)), case=case)
+        elif [x for x in got if x == "p"] != req or len(got) != len(ref):
+            ctx.violation("not-shortest:long", "%s returned length %d (with %d 'p'), a shortest completion has length %d" % (what, len(got), got.count("p"), len(ref)), case=case)
+        else:
+            ctx.count("agree:long")
+        ctx.seen(jsonx.key_hash(case))
     elif kind == "looppairs":
         pool = _looppair_cases()
         for req, pats in pool[case["lo"] : case["hi"]]:
